@@ -37,6 +37,9 @@ def environments(tier: str) -> List[Dict[str, Any]]:
         dict(name="seedrandom", hashseed="random", cwd="other", loc="a", store="noop", debug=False, graph=False, worker="pristine"),
         dict(name="forked", hashseed=None, cwd="home", loc="c", store="memory+lru", debug=False, graph=True, worker="forked"),
         dict(name="cells", hashseed=None, cwd="other", loc="cells", store="memory", debug=True, graph=False, worker="cells"),
+        # the pipeline as one file run as __main__, at two locations (content ids of their own)
+        dict(name="script_a", hashseed="5", cwd="home", loc="a", store="memory", debug=True, graph=False, worker="pristine", script=True),
+        dict(name="script_b", hashseed="77", cwd="other", loc="sb", store="local", debug=False, graph=True, worker="pristine", script=True),
     ]
     if tier == "thorough":
         E += [dict(name="t%d" % i, hashseed=str(7 * i + 3), cwd=("home", "other")[i % 2], loc="abc"[i % 3],
@@ -60,6 +63,8 @@ def _env_task(a) -> Dict[str, Any]:
         if store == "noop" and any(st["k"] == "load" for f in shape.funs for st in shape.stmts[f]):
             store = "memory"
         kw = {"dds_export_graph": True} if env["graph"] else None
+        if env.get("script"):
+            shape.real["main_script"] = True
         if env["worker"] == "cells":
             obs = run_cells(shape, hist, root, env)
         else:
@@ -288,7 +293,7 @@ def run_c03(tier: str) -> int:
             real = dict(sy[-1][1])
             for (p, c) in rec["req"]:
                 if p in real:
-                    observations.append({"c": sj["name"] + "|" + oracles.cone_id(c), "p": p, "k": real[p], "e": e["name"]})
+                    observations.append({"c": ("script:" if e.get("script") else "") + sj["name"] + "|" + oracles.cone_id(c), "p": p, "k": real[p], "e": e["name"]})
                     meta.append({"shape": sj["name"], "eval_index": hidx, "history": h[: hidx + 1], "environment": e})
     # the pinned corpus
     corpus = os.path.join(common.VERIF, "corpus")
